@@ -69,6 +69,16 @@ CHECKS = {
             "reports identity of decorated vs. original objects, attribute sets, probe events, verdicts and messages; the parent "
             "judges each (item, configuration) and compares enabled=True items across modes.",
             "Exhaustive over the 9 (thorough 15) configurations x 60 items; trusted: subprocess isolation.", "3/C15"),
+    "C17": ("exploration", "runtime monitoring: conservation of introspection lists and probe-call traces of earlier entities over definition histories",
+            "Random histories of class/function definitions (siblings, chains, joins, diamonds; invariants of every check_on in any order; "
+            "overriding members); after every step every earlier entity's lists and the traces of a fixed probe battery are re-observed "
+            "and must equal what was recorded when it was defined.",
+            "Histories produced only; contents and behaviour are judged, list identity is not.", "3/C17"),
+    "C18": ("exploration", "runtime monitoring: introspected lists vs. reference model, hand evaluation vs. real call verdicts, recording registration hook",
+            "For generated hierarchies and functions: the innermost list carrier on the __wrapped__ chain vs. find_checker and vs. the model's "
+            "effective contracts; an integrator-style manual evaluator vs. the real call over all truth assignments; a recording wrapper "
+            "on the registration hook; contracts added through add_*_to_checker after first use.",
+            "Executions produced only; keyword-style calls as in the documented recipe.", "3/C18"),
     "C19": ("exploration", "runtime monitoring: exception class and moment (definition vs call) of generated misuse programs, body-event counters",
             "Finite misuse matrix (reserved names, result/OLD, invariant signatures, coroutine invariants, snapshot placement, invalid "
             "errors) x decorator x callable kind, each with positive controls; exhaustive.",
